@@ -326,19 +326,21 @@ def run_kani_job(job, src, tdir, logdir, playback=False):
 
 
 def extract_playback_test(txt):
-    m = re.search(r"```\n(.*?)```", txt, re.S)
-    if not m:
+    """All generated unit tests that witness a *failing check* (cover witnesses are skipped)."""
+    blocks = re.findall(r"```\n(.*?)```", txt, re.S)
+    keep = [b for b in blocks if "#[test]" in b and not re.search(r"/// Check for `cover`", b)]
+    if not keep:
         return None
-    return m.group(1)
+    return "\n".join(keep)
 
 
 def native_replay(job, src, test_code, logdir):
     """Run Kani's generated concrete-playback unit test natively (rustc, no CBMC,
     no stubs): the real rdp-rs code executes on the solver's values."""
-    name = re.search(r"fn (kani_concrete_playback_\w+)", test_code)
-    if not name:
+    names = re.findall(r"fn (kani_concrete_playback_\w+)", test_code)
+    if not names:
         return {"reproduced": False, "why": "no playback test generated"}
-    name = name.group(1)
+    name = "kani_concrete_playback_" + job.harness
     # find which harness file holds the harness
     hdir = os.path.join(src, "verif_harness")
     target = None
@@ -357,18 +359,21 @@ def native_replay(job, src, test_code, logdir):
     out = {}
     for prof in ("dev", "release"):
         logf = os.path.join(logdir, "%s.replay.%s.log" % (job.harness, prof))
-        cmd = ["cargo", "kani", "playback", "-Z", "concrete-playback", "--lib"]
+        cmd = ["cargo", "kani", "playback", "-Z", "concrete-playback", "--lib", "--", name]
+        env = dict(ENV)
         if prof == "release":
-            cmd.append("--release")
-        cmd += ["--", name]
-        rc, wall, to = run_limited(cmd, src, logf, 900, 16)
+            # `cargo kani playback` has no --release: emulate the release profile's semantics
+            env.update({"CARGO_PROFILE_TEST_OVERFLOW_CHECKS": "false", "CARGO_PROFILE_TEST_DEBUG_ASSERTIONS": "false",
+                        "CARGO_PROFILE_TEST_OPT_LEVEL": "3", "CARGO_PROFILE_DEV_OVERFLOW_CHECKS": "false",
+                        "CARGO_PROFILE_DEV_DEBUG_ASSERTIONS": "false", "CARGO_PROFILE_DEV_OPT_LEVEL": "3"})
+        rc, wall, to = run_limited(cmd, src, logf, 900, 16, env=env)
         txt = open(logf, errors="replace").read()
         ran = re.search(r"test result: (\w+)\. (\d+) passed; (\d+) failed", txt)
         panic = re.findall(r"panicked at ([^\n]*\n[^\n]*)", txt)
         out[prof] = {"rc": rc, "ran": bool(ran), "failed": bool(ran and int(ran.group(3)) > 0),
                      "panic": panic[:2], "log": logf}
     out["reproduced"] = any(out[p]["failed"] for p in ("dev", "release"))
-    out["test"] = name
+    out["tests"] = names
     return out
 
 
